@@ -33,6 +33,51 @@ OPR = {'operator+': '.add', 'operator-': '.sub', 'operator*': '.mul', 'operator/
        'operator>=': '.ge', 'operator==': '.eq', 'operator!=': '.ne', 'operator=': '.assign'}
 
 
+COMP_NAMES = {
+    2: ['x', 'y'],
+    3: ['x', 'y', 'z'],
+    6: ['xx', 'xy', 'xz', 'yy', 'yz', 'zz'],
+    9: ['xx', 'xy', 'xz', 'yx', 'yy', 'yz', 'zx', 'zy', 'zz'],
+}
+SYM_ALIAS = {'yx': 'xy', 'zx': 'xz', 'zy': 'yz'}
+SIMPLE_MEM = {
+    'Zero': 'zero', 'StaticValue': 'staticValue', 'MutableValue': 'mutableValue', 'SetValue': 'setValue',
+    'Create': 'create', 'Print': 'print', 'JSON': 'json', 'XML': 'xml', 'YAML': 'yaml',
+    'Dimensions': 'dimensions', 'Unit': 'unit', 'Magnitude': 'magnitude',
+    'MagnitudeSquared': 'magnitudeSquared', 'Direction': 'direction', 'PlanarDirection': 'direction',
+    'Angle': 'angle', 'Dot': 'dot', 'Cross': 'cross', 'Dyadic': 'dyadic', 'Trace': 'trace',
+    'Determinant': 'determinant', 'Transpose': 'transpose', 'Cofactors': 'cofactors',
+    'Adjugate': 'adjugate', 'Inverse': 'inverse', 'IsSymmetric': 'isSymmetric',
+}
+
+
+def mem_of(meta, comps):
+    name = meta.get('name', '')
+    if meta['kind'] in ('ctor', 'cast-ctor', 'cast-assign', 'free', 'hash', 'stream', 'stdmath') or \
+            meta['kind'].startswith(('model', 'convert', 'map', 'static-kernel')):
+        return '.other'
+    if name == 'Value':
+        return '.valueUnit' if meta.get('unit') else '.value'
+    if name in SIMPLE_MEM:
+        return '.' + SIMPLE_MEM[name]
+    names = COMP_NAMES.get(comps)
+    if names:
+        base = name
+        pre = ''
+        if name.startswith('Mutable_'):
+            pre, base = 'mut', name[8:]
+        elif name.startswith('Set_'):
+            pre, base = 'set', name[4:]
+        if comps == 6:
+            base = SYM_ALIAS.get(base, base)
+        if base in names:
+            k = names.index(base)
+            return '(.%s %d)' % ({'': 'comp', 'mut': 'mutComp', 'set': 'setComp'}[pre], k)
+        if base == '_'.join(names):
+            return {'': '.allComps', 'mut': '.mutAll', 'set': '.setAll'}[pre]
+    return '.other'
+
+
 def lint(i):
     return str(i) if i >= 0 else '(%d)' % i
 
@@ -196,9 +241,10 @@ class Emitter:
         if meta.get('name') in ('Value', 'SetValue', 'MutableValue', 'StaticValue'):
             opr = '.valueAccess'
         eid = e['id'] + name_suffix
-        body = ('{ id := %s, kind := %s, opr := %s, cls := %d, fm := %s, ufm := %s, self := %s,\n'
+        comps = self.classes[cidx - 1]['comps'] if cidx else 0
+        body = ('{ id := %s, kind := %s, opr := %s, mem := %s, cls := %d, fm := %s, ufm := %s, self := %s,\n'
                 '    args := [%s], argSizes := [%s], ret := %s, nIn := %d,\n    tree := %s }' % (
-                    lean_str(eid), KIND[meta['kind']], opr, cidx, FM[fmt],
+                    lean_str(eid), KIND[meta['kind']], opr, mem_of(meta, comps), cidx, FM[fmt],
                     ('some ' + FM[ufm]) if ufm else 'none', 'true' if meta.get('self') else 'false',
                     ', '.join(arg_tys), ', '.join(str(x) for x in arg_sizes),
                     self.ty(ret_name), v['n_in'], dtree(v['tree'])))
@@ -277,6 +323,8 @@ class Emitter:
         self.emit_tables()
         emit_obligations(self, counts)
         self.n_twins = emit_twins(self)
+        emit_dircast(self)
+        emit_layout(self)
         # aggregate
         lines = ['-- GENERATED by emit_lean.py -- do not edit.']
         lines += ['import PhQVerif.Generated.%s' % m for m in mods]
@@ -312,8 +360,11 @@ class Emitter:
         rows = []
         for c in self.classes:
             dims = ('some ⟨%s⟩' % ', '.join(lint(x) for x in c['dims'])) if c['dims'] is not None else 'none'
-            rows.append('{ name := %s, comps := %d, dims := %s, unitEnum := %d, dimensional := %s }' % (
-                lean_str(c['name']), c['comps'], dims, c['unit'], 'true' if c['dimensional'] else 'false'))
+            rows.append('{ name := %s, comps := %d, dims := %s, unitEnum := %d, dimensional := %s, '
+                        'isDirection := %s }' % (
+                            lean_str(c['name']), c['comps'], dims, c['unit'],
+                            'true' if c['dimensional'] else 'false',
+                            'true' if c['name'] in ('Direction', 'PlanarDirection') else 'false'))
         L.append('/-- Row `i` (1-based; `Ty.q i`) of the class table. -/')
         L.append('def classes : List ClassInfo := [\n  ' + ',\n  '.join(rows) + ']')
         L.append('')
@@ -366,6 +417,11 @@ OBLIGATIONS = [
     ('C03op', 'Q', 'Chk.C03op', 'quantityEntries'),
     ('C04arith', 'Q', 'Chk.C04arith', 'quantityEntries'),
     ('C04std', 'Q', 'Chk.C04std', 'quantityEntries'),
+    ('C16cast', 'Q', 'Chk.C16cast', 'quantityEntries'),
+    ('C17access', 'Q', 'Chk.C17access', 'quantityEntries'),
+    ('C20uninitQ', 'Q', 'Chk.C20uninitStrict', 'quantityEntries'),
+    ('C20uninitU', 'U', 'Chk.C20uninitStrict', 'unitEntries'),
+    ('C20uninitM', 'M', 'Chk.C20uninit', 'modelEntries'),
 ]
 NCHUNKS = 16
 
@@ -427,6 +483,35 @@ def emit_list_with_obligation(em, modname, elem_type, rows, imports, checker, ob
     L.append('  exact ' + nest(['%s.c%d' % (oblname, ci) for ci in range(len(chunks))]))
     L += ['', 'end PhQVerif.Generated.Obl']
     em.write('Obl_%s.lean' % oblname, '\n'.join(L) + '\n')
+
+
+def emit_dircast(em):
+    rows, mods = [], set()
+    for cls, norm in (('Direction', 'Direction::ctor(Vector)'), ('PlanarDirection', 'PlanarDirection::ctor(PlanarVector)')):
+        if norm not in em.by_id:
+            continue
+        for e in em.model:
+            m = e['meta']
+            if m['cls'] == cls and m['kind'] == 'cast-ctor':
+                for fmt in (32, 64, 80):
+                    if str(fmt) in e['instances'][0]['fmts']:
+                        rows.append('(f%d.%s, f%d.%s)' % (fmt, ident(e['id']), fmt, ident(norm)))
+                        mods.add('Q_' + cls)
+    imports = ['PhQVerif.Core.Model'] + ['PhQVerif.Generated.%s' % x for x in sorted(mods)]
+    emit_list_with_obligation(em, 'DirCast', 'Entry × Entry', rows, imports, 'Chk.C16dir', 'C16dir')
+
+
+def emit_layout(em):
+    layout = json.load(open(os.path.join(em.cache, 'layout.json')))
+    rows = []
+    for r in layout:
+        rows.append('{ cls := %d, fm := %s, size := %d, align := %d, numSize := %d, triviallyCopyable := %s, '
+                    'standardLayout := %s, polymorphic := %s }' % (
+                        em.class_index[r['cls']], FM[r['fmt']], r['size'], r['align'], r['num_size'],
+                        str(r['trivially_copyable']).lower(), str(r['standard_layout']).lower(),
+                        str(r['polymorphic']).lower()))
+    emit_list_with_obligation(em, 'Layout', 'LayoutRow', rows, ['PhQVerif.Core.Tables'], 'Chk.C17layout',
+                              'C17layout')
 
 
 def emit_twins(em):
